@@ -134,6 +134,28 @@ def run(tier, rnd, out):
     run_stream(out, "operations-with-slow-replies", cs, world.run_cases_fresh(world.with_delays(rnd, cs)))
     tcp = [c for c in oc.mixed_cases(rnd, 3 if tier == "quick" else 25) if all(len(r) > 0 for r in c["replies"])]
     run_stream(out, "operations-over-tcp", tcp, asyncio.run(oc.run_tcp(tcp)))
+    # the same thermostat request made twice on one object while the air conditioner reports another power state the second time (for a
+    # toggle remote the code sent is another one, of another length): each frame is stamped with ITS length
+    import copy
+    async def twice():
+        cs = []; texts = []
+        for _ in range(30 if tier == "quick" else 400):
+            a = world.rand_op_case(rnd, 12, "valid", True)
+            for _t in range(20):
+                if a["args"][0].get("OnOffType") == 1: break
+                a = world.rand_op_case(rnd, 12, "valid", True)
+            b = world.rand_op_case(rnd, 12, "valid", True); b["args"] = copy.deepcopy(a["args"]); b["id"], b["key"] = a["id"], a["key"]; b["now"] = a["now"] + rnd.choice([1, 60, 3600])
+            if rnd.random() < .8:          # mostly: the power state asked for explicitly, the infra-red path (not the state-update path)
+                for c in (a, b):
+                    if c["args"][1] is None: c["args"][1] = True
+                    c["args"][6] = False
+            rb = bytearray.fromhex(a["replies"][1]); rb[78] = 1 - (rb[78] & 1); b["replies"][1] = bytes(rb).hex()          # the same report, the power bit the other way
+            api = world.ScriptedApi(True, a["id"], a["key"])
+            for c in (a, b):
+                texts.append(await api.run(12, c["args"], [bytes.fromhex(r) for r in c["replies"]], c["now"])); cs.append(c)
+        return cs, texts
+    cs, texts = asyncio.run(twice())
+    run_stream(out, "the-same-thermostat-request-twice-on-one-object-the-reported-power-state-changed", cs, texts)
     seqs = oc.odd_length_sequences(rnd, 6 if tier == "quick" else 80)
     texts = asyncio.run(oc.run_tcp_sequences(seqs))
     run_stream(out, "sequences-on-one-tcp-connection-replies-with-odd-length-fields", [c for s_ in seqs for c in s_], texts)
@@ -141,6 +163,9 @@ def run(tier, rnd, out):
 
 
 def replay(rp, out):
+    if rp.get("stream", "").startswith("the-same-thermostat-request-twice"):
+        import random
+        return run("quick", random.Random(int(rp.get("seed", 1))), out)
     if "one-tcp-connection" in rp.get("stream", ""):
         import random
         seqs = oc.odd_length_sequences(random.Random(int(rp.get("seed", 1))), 40)
